@@ -62,7 +62,8 @@ class Worker:
         # same document always yields the same bytes and therefore the same child, whoever asks
         wire = {"engine": job["engine"], "func": job["func"], "doc": job["doc"], "wall_cap": 180 if job.get("func") in ("execute", "trace") else job.get("wall_cap", 180)}
         try:
-            self.p.stdin.write(json.dumps(wire, sort_keys=True) + "\n")
+            # (no key sorting: the order of e.g. a rank table is part of a scenario)
+            self.p.stdin.write(json.dumps(wire) + "\n")
             self.p.stdin.flush()
             line = self.p.stdout.readline()
         except (BrokenPipeError, OSError):
